@@ -628,3 +628,115 @@ Proof. vm_compute. repeat split; reflexivity. Qed.
 (** The version counter is a uint64. *)
 Lemma ver_increases v : v < 2^64 - 1 -> v < (v + 1) mod 2^64.
 Proof. intros H. rewrite N.mod_small by lia. lia. Qed.
+
+(** * Splits whose child cannot be hosted on this store (rollback after the shrink) *)
+
+(** A split that fails because the child cannot be hosted never succeeds, and
+    either changes nothing or rewrites the parent's entry with the same region
+    (range, epoch) it had: the shrink is undone. *)
+Lemma split_unhosted_restores s parent key child s' ok :
+  split_unhosted s parent key child = (s', ok) ->
+  ok = false /\
+  (s' = s \/ exists p p', rfind parent (smem s) = Some p /\ r_reg p' = r_reg p /\
+                          forward (r_state p) (r_state p') /\ smem s' = rput p' (smem s)).
+Proof.
+  unfold split_unhosted.
+  set (child2 := if bytes_eqb (g_start (r_reg (set_state child 1))) [] then set_start (set_state child 1) key
+                 else set_state child 1).
+  destruct (parent =? 0); [intros H; inversion H; auto|].
+  destruct (rid child2 =? 0); [intros H; inversion H; auto|].
+  destruct (bytes_eqb (g_start (r_reg child2)) []); [intros H; inversion H; auto|].
+  destruct (rfind parent (smem s)) as [pm|] eqn:Ef; [|intros H; inversion H; auto].
+  destruct (negb (bytes_eqb (g_end (r_reg pm)) []) && negb (bytes_ltb (g_start (r_reg child2)) (g_end (r_reg pm))));
+    [intros H; inversion H; auto|].
+  destruct (bytes_leb (g_start (r_reg child2)) (g_start (r_reg pm))); [intros H; inversion H; auto|].
+  destruct (update_region s (bump (set_end pm (g_start (r_reg child2))))) as [s1|] eqn:E1; [|intros H; inversion H; auto].
+  apply rfind_in in Ef as Hin. destruct Hin as [Hin Hpid].
+  apply update_region_mem in E1 as (np & Hnreg & Hnz & Hmem1 & _ & _ & Hnst).
+  assert (Hnid : rid np = rid pm) by (unfold rid; rewrite Hnreg; reflexivity).
+  assert (Hfind1 : rfind (rid pm) (smem s1) = Some np).
+  { rewrite Hmem1. unfold rput. cbn [rfind]. rewrite Hnid, N.eqb_refl. reflexivity. }
+  destruct (update_region s1 pm) as [s3|] eqn:E3.
+  - apply update_region_mem in E3 as (p' & Hreg & _ & Hmem3 & _ & _ & Hst).
+    intros H. inversion H; subst s' ok. split; [reflexivity|]. right. exists pm, p'.
+    split; [rewrite <- Hpid in *; reflexivity|]. split; [exact Hreg|]. split.
+    + rewrite Hst. destruct (N.eqb_spec (r_state pm) 0) as [E0|E0]; [|left; reflexivity].
+      right. unfold known_state. rewrite E0. repeat split; lia.
+    + rewrite Hmem3, Hmem1. unfold rput at 1 3.
+      assert (Hid' : rid p' = rid pm) by (unfold rid; rewrite Hreg; reflexivity).
+      rewrite Hid'. f_equal. apply rremove_rput. exact Hnid.
+  - exfalso. unfold update_region in E3.
+    assert (Hz : rid pm <> 0) by exact Hnz.
+    destruct (N.eqb_spec (rid pm) 0) as [Ez|Ez]; [contradiction|].
+    assert (Hrid : forall m : rmeta, rid (if r_state pm =? 0 then set_state pm 1 else pm) = rid pm)
+      by (intros _; destruct (r_state pm =? 0); reflexivity).
+    rewrite (Hrid pm), Hfind1 in E3.
+    assert (Hv : valid_transition (r_state np) (r_state (if r_state pm =? 0 then set_state pm 1 else pm)) = true).
+    { apply valid_transition_spec. left. rewrite Hnst. cbn [bump set_end r_state].
+      destruct (r_state pm =? 0); reflexivity. }
+    rewrite Hv in E3. discriminate.
+Qed.
+
+Lemma partition_rewrite_same c id p p' :
+  partition c -> rfind id c = Some p -> r_reg p' = r_reg p ->
+  partition (rput p' c) /\ same_cover c (rput p' c).
+Proof.
+  intros Hp Hf Hreg. pose proof Hp as (Hnd & Hall & Hpair).
+  apply rfind_in in Hf as [Hin Hid].
+  assert (Hid' : rid p' = rid p) by (unfold rid; rewrite Hreg; reflexivity).
+  split; [split; [|split]|].
+  - now apply nodup_rput.
+  - apply Forall_forall. intros x Hx. apply in_rput in Hx as [->|[Hx _]].
+    + rewrite Hreg. now apply (partition_wf c).
+    + now apply (partition_wf c).
+  - intros a b Ha Hb Hab.
+    apply in_rput in Ha as [->|[Ha Ha']]; apply in_rput in Hb as [->|[Hb Hb']].
+    + congruence.
+    + rewrite Hreg. apply Hpair; auto. congruence.
+    + rewrite Hreg. apply Hpair; auto. congruence.
+    + apply Hpair; auto.
+  - intros k. unfold covered. split.
+    + intros (m & Hm & Hk). apply in_rput in Hm as [->|[Hm _]].
+      * exists p. split; [exact Hin | rewrite <- Hreg; exact Hk].
+      * exists m. split; assumption.
+    + intros (m & Hm & Hk). destruct (N.eq_dec (rid m) (rid p')) as [E|E].
+      * exists p'. split; [apply in_rput; now left|].
+        assert (m = p) by (apply (nodup_same c); auto; congruence). subst m. rewrite Hreg. exact Hk.
+      * exists m. split; [apply in_rput; right; split; assumption | exact Hk].
+Qed.
+
+Lemma rfind_rremove_other id id' c : id' <> id -> rfind id (rremove id' c) = rfind id c.
+Proof.
+  intros Hne. induction c as [|m c IH]; [reflexivity|].
+  unfold rremove in *. cbn [filter rfind].
+  destruct (N.eqb_spec (rid m) id') as [E|E]; cbn [negb].
+  - destruct (N.eqb_spec (rid m) id) as [E'|E']; [congruence | exact IH].
+  - cbn [rfind]. destruct (rid m =? id); [reflexivity | exact IH].
+Qed.
+
+Lemma split_unhosted_partition s parent key child s' ok :
+  partition (smem s) ->
+  split_unhosted s parent key child = (s', ok) ->
+  ok = false /\ partition (smem s') /\ same_cover (smem s) (smem s') /\
+  (forall id, option_map r_reg (rfind id (smem s')) = option_map r_reg (rfind id (smem s))).
+Proof.
+  intros Hp H. apply split_unhosted_restores in H as [-> [->|(p & p' & Hf & Hreg & _ & Hmem)]].
+  - split; [reflexivity|]. split; [exact Hp|]. split; [intros k; reflexivity | reflexivity].
+  - destruct (partition_rewrite_same _ _ _ _ Hp Hf Hreg) as [Hp' Hc].
+    rewrite Hmem. split; [reflexivity|]. split; [exact Hp'|]. split; [exact Hc|].
+    intros id. apply rfind_in in Hf as Hpp. destruct Hpp as [Hin Hid].
+    assert (Hid' : rid p' = parent) by (unfold rid in *; rewrite Hreg; exact Hid).
+    unfold rput. cbn [rfind]. rewrite Hid'.
+    destruct (N.eqb_spec parent id) as [E|E].
+    + subst id. rewrite Hf. cbn [option_map]. now rewrite Hreg.
+    + rewrite (rfind_rremove_other id parent _ E). reflexivity.
+Qed.
+
+Lemma failed_split_example :
+  let p := {| r_reg := {| g_id := 1; g_start := [n2b 97]; g_end := [n2b 122]; g_ver := 4; g_conf := 1 |}; r_state := 1 |} in
+  let ch := {| r_reg := {| g_id := 2; g_start := []; g_end := [n2b 122]; g_ver := 1; g_conf := 1 |}; r_state := 0 |} in
+  let s := {| smem := [p]; sdisk := [p] |} in
+  partition_b (smem s) = true /\
+  split_unhosted s 1 [n2b 109] ch = (s, false) /\
+  fst (split s 1 [n2b 109] ch) <> s.
+Proof. vm_compute. repeat split; try reflexivity. discriminate. Qed.
